@@ -15,6 +15,7 @@ import (
 	"sort"
 	"strconv"
 	"sync"
+	"sync/atomic"
 	"time"
 )
 
@@ -72,6 +73,7 @@ type Run struct {
 	Seed     int64
 	Replay   string // path of a replay file, "" in search mode
 	maxDist  int
+	expired  atomic.Bool
 }
 
 func envInt(k string, def int) int {
@@ -99,6 +101,12 @@ func Start(property, level string) *Run {
 	r.Replay = os.Getenv("VERIF_REPLAY")
 	if d := envInt("VERIF_DEADLINE_S", 0); d > 0 {
 		r.deadline = r.start.Add(time.Duration(d) * time.Second)
+		// A real-clock timer started here (outside any synctest bubble): inside a
+		// bubble time.Now() is virtual and would never reach the deadline.
+		go func() {
+			time.Sleep(time.Duration(d) * time.Second)
+			r.expired.Store(true)
+		}()
 	}
 	r.res.Exhaustive = true
 	r.res.Bounds = map[string]any{}
@@ -131,7 +139,7 @@ func (r *Run) Expired() bool {
 	if r.deadline.IsZero() {
 		return false
 	}
-	if time.Now().After(r.deadline) {
+	if r.expired.Load() {
 		r.Cap("internal deadline reached")
 		return true
 	}
